@@ -258,7 +258,7 @@ def py_options(cs, salt):
                 out[s] = {'none': None if salt % 2 else [], 'valid': [(i - 1, j - 1) for i, j in SPECIES[s]['valid']],
                           'bad': bad[salt % len(bad)]}[e]
             elif kind == 'deform':
-                out[s] = {'none': None if salt % 2 else (), 'valid': (0, 1), 'bad': BAD_DEFORM[salt % len(BAD_DEFORM)]}[e]
+                out[s] = {'none': None if salt % 2 else (), 'valid': (0, 1) if s == 'A' else (0,), 'bad': BAD_DEFORM[salt % len(BAD_DEFORM)]}[e]
             else:
                 out[s] = {'none': True, 'valid': False, 'bad': BAD_IGN[salt % len(BAD_IGN)]}[e]
         if d['extra'] == 'unknown':
